@@ -378,6 +378,13 @@ func (w *World) Do(method, path string, body any, hdr map[string]string) (r HTTP
 	req := httptest.NewRequest(method, path, bytes.NewReader(buf))
 	req.Header.Set("Content-Type", "application/json")
 	for k, v := range hdr {
+		if k == "#cancelled" {
+			// the sender has already given up (stream reset, connection closed): the request context is done
+			ctx, cancel := context.WithCancel(req.Context())
+			cancel()
+			req = req.WithContext(ctx)
+			continue
+		}
 		if i := strings.Index(k, "#"); i > 0 {
 			req.Header.Add(k[:i], v) // "Name#2": a second field of the same name
 			continue
